@@ -2,7 +2,7 @@
 (* C19, rendering step: every request line is either [id, gen |-> [k, S]] (a scenario of the
    generator's universe, named by shape number and entry numbers) or [id, sc] (a complete scenario
    written by the driver: bundles around read-buffer boundaries, late failures, pinned witnesses).
-   TLC prints the scenario together with Plan(scenario); the driver needs the plan to know which
+   TLC prints the (generated) scenario together with Plan(scenario); the driver needs the plan to know which
    library calls to make and drops scenarios the documentation does not determine.               *)
 EXTENDS CliUniverse, TraceIO
 VARIABLE l
@@ -12,7 +12,7 @@ Spec == Init /\ [][Next]_l
 Scen(r) == IF Has(r, "gen") THEN Mk({r.gen.S[i] : i \in DOMAIN r.gen.S}, r.gen.k) ELSE r.sc
 Out(r) == LET s == Scen(r)
               p == Plan(s)
-          IN [id |-> r.id, sc |-> s, tasks |-> p.tasks, unspec |-> p.unspec, hazard |-> p.hazard,
+          IN [id |-> r.id, sc |-> IF Has(r, "gen") THEN s ELSE <<>>, tasks |-> p.tasks, unspec |-> p.unspec, hazard |-> p.hazard,
               known |-> p.known, inplace |-> p.inplace]
 Emit == l <= N => PrintT(<<"PLAN", ToJson(Out(Trace[l]))>>)
 =============================================================================
